@@ -5,7 +5,20 @@ from base64 import a85decode
 from binascii import unhexlify
 
 start_re = re.compile(rb"^\s*<?\s*~\s*")
-end_re = re.compile(rb"\s*~\s*>?\s*$")
+
+
+def _strip_eod(data: bytes) -> bytes:
+    """Remove a trailing `~` or `~>` with the white space around it.
+
+    The same as substituting rb"\\s*~\\s*>?\\s*$" by nothing, but in linear time:
+    the regular expression retries at every byte of a long run of white space.
+    """
+    end = data.rstrip()
+    if end.endswith(b">"):
+        end = end[:-1].rstrip()
+    if end.endswith(b"~"):
+        return end[:-1].rstrip()
+    return data
 
 
 def ascii85decode(data: bytes) -> bytes:
@@ -23,7 +36,7 @@ def ascii85decode(data: bytes) -> bytes:
     where we strip leading `<~` or `~` and trailing `~` or `~>`.
     """
     data = start_re.sub(b"", data)
-    data = end_re.sub(b"", data)
+    data = _strip_eod(data)
     return a85decode(data)
 
 
